@@ -222,7 +222,7 @@ Section Value.
                                                  (map (fun (t : buff_template) =>
                                                          mkCand j e (mkMod (b_filter t) (b_extra t) ModDomain_target
                                                                            (b_tgt_attr t) (b_op t) (b_aggmode t)
-                                                                           (Some bid) (snd ba))
+                                                                           (Some bid) (snd ba) 0)
                                                                 (e_resist_attr ef) (Some (boost_ships w j)))
                                                       (match al_get zeqb (u_buffs u) bid with Some x => x | None => [] end)))
                                         end
@@ -237,10 +237,46 @@ Section Value.
                            let (mm, mods) := acc in
                            if negb (selects w c i) then (mm, mods)
                            else
-                             let (mm, ov) := spec_val fuel w mm (ca_item c) (m_src_attr (ca_mod c)) in
-                             match ov with
+                             (* operator and value of the modification: read from the source attribute (dogma)
+                                or computed (python modifiers of eve_obj/custom) *)
+                             let (mm, omod) :=
+                                 if Z.eqb (m_py (ca_mod c)) 0 then
+                                   let (mm, ov) := spec_val fuel w mm (ca_item c) (m_src_attr (ca_mod c)) in
+                                   (mm, match ov with Some v => Some (m_op (ca_mod c), v) | None => None end)
+                                 else if Z.eqb (m_py (ca_mod c)) 1 then
+                                   match (match item_fit w (ca_item c) with
+                                          | Some pf => match get_fit w pf with Some ft => f_ship ft | None => None end
+                                          | None => None end) with
+                                   | None => (mm, None)
+                                   | Some ship =>
+                                     let (mm, om) := spec_val fuel w mm ship AttrId_mass in
+                                     let (mm, osf) := spec_val fuel w mm (ca_item c) AttrId_speed_factor in
+                                     let (mm, oth) := spec_val fuel w mm (ca_item c) AttrId_speed_boost_factor in
+                                     match om, osf, oth with
+                                     | Some mass, Some sf, Some th =>
+                                       if Qeq_bool mass 0 then (mm, None)
+                                       else (mm, Some (ModOperator_post_mul, Qred (1 + sf * th / mass / 100)%Q))
+                                     | _, _, _ => (mm, None)
+                                     end
+                                   end
+                                 else if Z.eqb (m_py (ca_mod c)) 2 then
+                                   match get_item w (ca_item c) with
+                                   | None => (mm, None)
+                                   | Some ai =>
+                                     let paste := match i_charge ai with
+                                                  | Some ch => match get_item w ch with
+                                                               | Some ci => Z.eqb (i_tid ci) TypeId_nanite_repair_paste
+                                                               | None => false end
+                                                  | None => false end in
+                                     if paste then
+                                       let (mm, ov) := spec_val fuel w mm (ca_item c) AttrId_charged_armor_dmg_mult in
+                                       (mm, match ov with Some v => Some (ModOperator_post_mul_immune, v) | None => None end)
+                                     else (mm, Some (ModOperator_post_mul_immune, 1%Q))
+                                   end
+                                 else (mm, None) in
+                             match omod with
                              | None => (mm, mods)
-                             | Some v =>
+                             | Some (mop, v) =>
                                let (mm, resist) :=
                                    match ca_resist c with
                                    | None => (mm, 1%Q)
@@ -252,7 +288,7 @@ Section Value.
                                      | _ => (mm, 1%Q)
                                      end
                                    end in
-                               match al_get zeqb NORMALIZATION_MAP (m_op (ca_mod c)) with
+                               match al_get zeqb NORMALIZATION_MAP mop with
                                | None => (mm, mods)
                                | Some ne =>
                                  match normalize ne v with
@@ -264,8 +300,8 @@ Section Value.
                                                              | None => false end
                                                  | None => false end in
                                    let penal := negb (am_stackable meta) && negb immune
-                                                && mem zeqb PENALIZABLE_OPERATORS (m_op (ca_mod c)) in
-                                   (mm, mods ++ [mkGmod (m_op (ca_mod c)) (Qred (nv * resist)%Q) penal
+                                                && mem zeqb PENALIZABLE_OPERATORS mop in
+                                   (mm, mods ++ [mkGmod mop (Qred (nv * resist)%Q) penal
                                                         (m_aggmode (ca_mod c)) (m_aggkey (ca_mod c))])
                                  end
                                end
